@@ -131,6 +131,27 @@ func New(t script.Table) *Model {
 	return &Model{Table: t, stmts: map[string]*mStmt{}, portals: map[string]*mPortal{}}
 }
 
+// Snapshot / Restore: the namespace and the discard flag before a message whose outcome is open
+// (script.CMsg.AltFail): if the server refuses the message, nothing it would have defined exists.
+func (m *Model) Snapshot() *Model {
+	c := *m
+	c.stmts = make(map[string]*mStmt, len(m.stmts))
+	for k, v := range m.stmts {
+		c.stmts[k] = v
+	}
+	c.portals = make(map[string]*mPortal, len(m.portals))
+	for k, v := range m.portals {
+		c.portals[k] = v
+	}
+	return &c
+}
+
+func (m *Model) Restore(s *Model) {
+	cur := m.cur
+	*m = *s
+	m.cur = cur
+}
+
 // InCopy reports whether a handler is currently consuming COPY messages.
 func (m *Model) InCopy() bool { return m.cur != nil && m.cur.inCopy }
 
